@@ -95,7 +95,7 @@ pub fn entities_json_typed(rng: &mut Rng, gs: &GSchema, w: &GWorld, implicit_pct
 fn lookalike(rng: &mut Rng) -> GValue {
     let rec = |kv: Vec<(&str, GValue)>| GValue::Rec(kv.into_iter().map(|(k, v)| (k.to_string(), v)).collect());
     let s = |x: &str| GValue::Str(x.to_string());
-    match rng.below(9) {
+    match rng.below(14) {
         0 => rec(vec![("__entity", rec(vec![("type", s("A")), ("id", s("a"))]))]),
         1 => rec(vec![("__extn", rec(vec![("fn", s("decimal")), ("arg", s("1.0"))]))]),
         2 => rec(vec![("__entity", rec(vec![("type", s("A")), ("id", s("a")), ("x", GValue::Long(1))]))]),
@@ -104,6 +104,10 @@ fn lookalike(rng: &mut Rng) -> GValue {
         5 => rec(vec![("fn", s("ip")), ("arg", s("127.0.0.1"))]),
         6 => rec(vec![("__entity", s("A::\"a\""))]),
         7 => rec(vec![("__extn", rec(vec![("fn", s("nosuchfn")), ("arg", s("x"))])), ("y", GValue::Long(0))]),
+        9 => rec(vec![("__extn", rec(vec![("fn", s("unknown")), ("arg", s("x"))])), ("note", GValue::Long(1))]),
+        10 => rec(vec![("__entity", rec(vec![("type", s("A")), ("id", s("a"))])), ("note", GValue::Long(1))]),
+        11 => rec(vec![("__extn", rec(vec![("fn", s("decimal")), ("arg", s("1.5"))])), ("note", s("n"))]),
+        12 => rec(vec![("__extn", rec(vec![("fn", s("unknown")), ("arg", s("y"))]))]),
         _ => GValue::set(vec![rec(vec![("__entity", rec(vec![("type", s("B")), ("id", s(""))]))]), GValue::Long(3)]),
     }
 }
@@ -195,6 +199,27 @@ fn wild_case(ctx: &mut CaseCtx) {
             Err(er) => {
                 if ok_model {
                     ctx.violation("C10:entity:to_json-refused", format!("serialising a representable entity failed: {}", bridge::err_chain(&er)), detail(json!({})));
+                }
+            }
+        }
+    }
+    // single entities taken out of the loaded store (they carry the computed ancestor closure)
+    for ent in ents.iter().take(4) {
+        let u = bridge::uid_back(&ent.uid());
+        let ok_model = w.entities.get(&u).map(|e| render::value_json_representable(&GValue::Rec(e.attrs.clone())) && render::value_json_representable(&GValue::Rec(e.tags.clone()))).unwrap_or(true);
+        match ent.to_json_value() {
+            Ok(j) => match Entity::from_json_value(j.clone(), None) {
+                Ok(back) => {
+                    ctx.count("entity-from-store:roundtrip");
+                    if !back.deep_eq(ent) {
+                        ctx.violation("C10:entity-from-store-roundtrip:not-deep-eq", format!("an entity taken from a loaded store is not deep_eq to Entity::from_json_value(its to_json_value()) for {:?}", u), detail(json!({"json": j})));
+                    }
+                }
+                Err(er) => ctx.violation("C10:entity-from-store-roundtrip:does-not-parse", format!("Entity JSON refused: {}", bridge::err_chain(&er)), detail(json!({"json": j}))),
+            },
+            Err(er) => {
+                if ok_model {
+                    ctx.violation("C10:entity-from-store:to_json-refused", format!("serialising a representable entity failed: {}", bridge::err_chain(&er)), detail(json!({})));
                 }
             }
         }
